@@ -109,6 +109,22 @@ pub fn judge_run(run: &[RunSlot], sfn: &[u8; 11]) -> (Lfn, Option<Vec<u16>>, Opt
     judge_run_masked(run, sfn, 0xFF)
 }
 
+/// set by the `oem-alt` pass of the C17 driver: the volume is mounted with the test code page instead of the crate's
+/// default converter, and every 8.3 text the oracle expects is spelled with it
+pub static OEM_ALT: std::sync::atomic::AtomicBool = std::sync::atomic::AtomicBool::new(false);
+
+/// what the converter the volume is mounted with makes of one 8.3 byte: the crate's default (`LossyOemCpConverter`: U+FFFD for
+/// every byte >= 0x80) or the test code page of the `oem-alt` pass (byte b >= 0x80 -> U+0100 + b: injective, never U+FFFD)
+pub fn oem_decode(b: u8) -> char {
+    if b < 0x80 {
+        b as char
+    } else if OEM_ALT.load(std::sync::atomic::Ordering::Relaxed) {
+        char::from_u32(0x100 + u32::from(b)).unwrap()
+    } else {
+        '\u{FFFD}'
+    }
+}
+
 pub fn short_display(sfn: &[u8; 11], nt: u8) -> String {
     let mut base: Vec<u8> = sfn[0..8].to_vec();
     while base.last() == Some(&b' ') {
@@ -127,7 +143,7 @@ pub fn short_display(sfn: &[u8; 11], nt: u8) -> String {
     if !base.is_empty() && base[0] == 0x05 {
         base[0] = 0xE5;
     }
-    let conv = |b: &u8| if *b < 0x80 { *b as char } else { '\u{FFFD}' };
+    let conv = |b: &u8| oem_decode(*b);
     let mut s: String = base.iter().map(conv).collect();
     if !ext.is_empty() {
         s.push('.');
